@@ -27,10 +27,11 @@ type fakeServer struct {
 	dials   []bool   // consumed per dial; empty = accept
 	calls   []string // consumed per request: ok<r> svc lost ctx dl slow<ms>:ok<r> ; empty = ok0
 	onCtx   func()   // invoked when a request scripted "ctx" arrives
+	onDL    func()   // invoked when a request scripted "dl" arrives (the caller's deadline passes now)
 	nDials  int
 	log     *attemptLog
 	conns   []net.Conn
-	delayMs int // delay before every answer (C17 completion orders)
+	delayMs int     // delay before every answer (C17 completion orders)
 	ctrl    *bkCtrl // fail-backup schedules: every dial and every arriving request is reported, answers are held
 	wmu     sync.Mutex
 }
@@ -179,7 +180,12 @@ func (s *fakeServer) respond(conn net.Conn, f *refcodec.Frame, act string, delay
 			onCtx()
 		}
 		return true // never answers
-	case act == "dl" || act == "silent":
+	case act == "dl":
+		if s.onDL != nil {
+			s.onDL()
+		}
+		return true // never answers
+	case act == "silent":
 		return true
 	}
 	if oneway {
